@@ -35,116 +35,78 @@ def describe_reads(facts):
 
 
 def r1_r2(facts, rep):
-    rep.rule("C18-R1", "the field Options.describe is read at exactly one place of the crate outside derive expansions")
-    rep.rule("C18-R2", "non-interference: what is control-dependent on that read is exactly one Vec::push onto "
-                       "q.descriptions of Description::Constant(the phrase given to Db::lookup, a clone of the matched "
-                       "constant); the push happens on every path of the describe side; no local defined there is used "
-                       "afterwards; both sides continue into the same construction of the result")
+    rep.rule("C18-R1", "the field Options.describe is read only by the evaluator (module eval), outside derive expansions")
+    rep.rule("C18-R2", "non-interference, by the summary of eval::eval on a WORD / SENTENCE node with a symbolic describe flag "
+                       "(scripted tree, Db::lookup as an effect, the description list as a sequence, helpers followed): the paths "
+                       "with describe = true and describe = false return the same results; with describe = true exactly one "
+                       "Description::Constant(the text given to Db::lookup, the matched constant) is appended on a hit and "
+                       "nothing on a miss or an error; with describe = false the list is untouched")
+    from ..absint import core
+    from ..absint.core import Agg
+    from ..absint.term import Sym, T
+    from ..absint.stdmodels import Seq
+    from . import evalnode, evalops
     reads = describe_reads(facts)
     for b, blk, s in reads:
-        rep.ob("C18-R1", "read-in:%s" % b.path, b.path == "eval::eval", "Options.describe is read in %s" % b.path, b.site(s["span"]))
-    rep.ob("C18-R1", "exactly-one-read", len(reads) == 1, "%d read(s) of Options.describe" % len(reads))
+        rep.ob("C18-R1", "read-in:%s" % b.path.split("::{closure")[0], b.path.startswith("eval::") and not b.path.startswith("eval::builtin"),
+               "Options.describe is read in %s" % b.path, b.site(s["span"]))
     rep.floor("C18-R1", "reads of Options.describe", len(reads), 1)
-    body = anchor(rep, "C18-R2", facts, "eval::eval")
-    if body is None or not reads:
+    if anchor(rep, "C18-R2", facts, "eval::eval") is None:
         return
-    cfg = body.cfg
-    for b, blk, s in reads:
-        if b.path != "eval::eval":
+    for kind, prior in (("WORD", ()), ("SENTENCE", ()), ("WORD", (evalnode.prior_description(facts, 0),)),
+                        ("WORD", (evalnode.prior_description(facts, 0), evalnode.prior_description(facts, 1)))):
+        tree = {0: {"kind": kind, "children": []}}
+        label = "%s:after-%d-earlier" % (kind, len(prior))
+        try:
+            dom, it, outs, dref = evalnode.run_eval(facts, tree, extra=evalnode.lookup_oracle(facts), with_query=True, prior=prior)
+        except core.Undecided as e:
+            rep.ob("C18-R2", "summary:%s" % label, False, "undecided: %s" % e)
             continue
-        # the switch on the value read
-        if s.get("place") is None:
-            sw = blk["id"]
-        else:
-            d = s["place"]["local"]
-            sw = None
-            for x, t, sp in body.terms():
-                if t["k"] == "switch" and F.op_local(t["discr"]) == d:
-                    sw = x["id"]
-        if not rep.ob("C18-R2", "switch-on-describe", sw is not None, "the value read is switched on", body.site(s["span"])):
-            continue
-        m, other = cfg.switch_targets(sw)
-        f_t, t_t = m.get(0), other
-        only_true = cfg.blocks_only_via_edge(sw, t_t)
-        only_false = cfg.blocks_only_via_edge(sw, f_t) if f_t is not None else set()
-        # calls in the describe-only region
-        pushes = []
-        others = []
-        for x in sorted(only_true):
-            t = body.blocks[x]["term"]["t"]
-            if t["k"] == "call":
-                nm = F.callee(t)
-                if nm == "std::vec::Vec::<T, A>::push":
-                    pushes.append((x, t))
-                elif nm.endswith("as std::convert::Into<U>>::into") or nm.endswith("as std::clone::Clone>::clone") or \
-                        nm.endswith("::from") or nm.endswith("::to_owned") or nm.endswith("::to_string"):
-                    pass
-                else:
-                    others.append(nm)
-        rep.ob("C18-R2", "describe-side:one-push", len(pushes) == 1, "%d push call(s) on the describe side" % len(pushes),
-               body.site(s["span"]))
-        rep.ob("C18-R2", "describe-side:no-other-effect", not others,
-               "other calls on the describe side: %s" % sorted(set(others)), body.site(s["span"]))
-        for x, t in pushes:
-            recv = flow.field_origins(body, t["args"][0])
-            rep.ob("C18-R2", "push:receiver", recv == {("descriptions",)}, "push receiver is %s" % sorted(recv),
-                   body.site(body.blocks[x]["term"]["span"]))
-            # unconditional on the describe side: every path from the true edge to a return passes the push
-            good = cfg.every_path_passes(t_t, set(cfg.returns), {x})
-            rep.ob("C18-R2", "push:unconditional", good,
-                   "the push is %sexecuted on every path of the describe side" % ("" if good else "NOT "),
-                   body.site(body.blocks[x]["term"]["span"]))
-            # what is pushed
-            ls = flow.slice_back(body, t["args"][1], through_agg=True)
-            aggs = {l[1] for l in ls if l[0] == "agg"}
-            calls = {l[1] for l in ls if l[0] == "call"}
-            rep.ob("C18-R2", "push:value-shape", "query::Description::Constant" in aggs,
-                   "pushed value is built from %s" % sorted(aggs), body.site(body.blocks[x]["term"]["span"]))
-            # the phrase: same Query::source call that feeds Db::lookup
-            lookups = [(bid, tt) for bid, tt, sp, nm in flow.calls_named(body, lambda n: n == "db::Db::lookup")
-                       if cfg.dominates(bid, sw)]
-            phrase_src = {l[2] for l in ls if l[0] == "call" and l[1] == "query::Query::<'a>::source"}
-            lk_src = set()
-            for bid, tt in lookups:
-                lk_src |= {l[2] for l in flow.slice_back(body, tt["args"][1]) if l[0] == "call" and l[1] == "query::Query::<'a>::source"}
-            rep.ob("C18-R2", "push:phrase-is-looked-up-text", bool(phrase_src) and phrase_src == lk_src,
-                   "the described phrase comes from the same q.source(span) call as the text given to Db::lookup",
-                   body.site(body.blocks[x]["term"]["span"]))
-            # the constant: clone of the matched constant (payload of the lookup result)
-            lk_blocks = {bid for bid, tt in lookups}
-            const_src = {l for l in ls if l[0] == "call" and l[1] == "db::Db::lookup"}
-            rep.ob("C18-R2", "push:constant-is-match", bool(const_src) and {l[2] for l in const_src} <= lk_blocks,
-                   "the described constant is the payload of the Db::lookup result", body.site(body.blocks[x]["term"]["span"]))
-        # no local defined on the describe side is used outside it
-        defined = set()
-        for x in only_true:
-            for st in body.blocks[x]["stmts"]:
-                if st["k"] == "assign" and not st["place"]["proj"]:
-                    defined.add(st["place"]["local"])
-            t = body.blocks[x]["term"]["t"]
-            if t["k"] == "call" and not t["dest"]["proj"]:
-                defined.add(t["dest"]["local"])
-        # locals also defined elsewhere (e.g. the unit value of the if-expression, drop flags) are not describe-only
-        defs = flow.Defs(body)
-        only_defined = {l for l in defined if all(d[1] in only_true for d in defs.of(l))}
-        leaked = set()
-        from ..cfg import liveness
-        live_in, addr = liveness(body)
-        for x in cfg.reach0 - only_true:
-            leaked |= (live_in[x] & only_defined)
-        rep.ob("C18-R2", "describe-side:no-leak", not leaked,
-               "locals defined only on the describe side and live outside it: %s" % sorted(leaked), body.site(s["span"]))
-        # both sides join before the result is built
-        joins = cfg.reachable_from(t_t) & cfg.reachable_from(f_t) if f_t is not None else set()
-        res = [bid for bid, tt, sp, nm in flow.calls_named(body, lambda n: n == "numeric::Numeric::new") if bid in joins
-               and cfg.dominates(sw, bid)]
-        rep.ob("C18-R2", "result-built-after-join", len(res) >= 1 and all(r not in only_true and r not in only_false for r in res),
-               "the result is built in a block common to both sides (%d candidate(s))" % len(res), body.site(s["span"]))
+        by = {True: [], False: [], None: []}
+        bad = []
+        for o in outs:
+            if o.kind != "ret":
+                bad.append("%s %s" % (o.kind, o.value))
+                continue
+            d = dom.decide(o.store, Sym("describe"))
+            lst = it.read_ref(o.store, dref)
+            log = tuple(e for e in dom.log(o.store))
+            u = evalops.unpack(o.value)
+            res = (u[0], repr(u[1]) if len(u) > 1 else None, repr(u[2]) if len(u) > 2 and u[0] == "ok" else None, log)
+            by[d].append((res, lst))
+            hit = u[0] == "ok"
+            if not isinstance(lst, Seq):
+                bad.append("the description list becomes %r" % (lst,))
+                continue
+            if tuple(lst.items[:len(prior)]) != tuple(prior):
+                bad.append("earlier descriptions are changed: %s" % (list(lst.items),))
+                continue
+            new_items = lst.items[len(prior):]
+            if d is True and hit:
+                want_c = evalnode.constant_value(facts)
+                okp = len(new_items) == 1 and isinstance(new_items[0], Agg) and new_items[0].path == "query::Description" \
+                    and new_items[0].field(0) == T("text", Sym("span0")) and new_items[0].field(1) == want_c
+                lk = [e for e in log if e[0] == "lookup"]
+                if not okp or len(lk) != 1 or lk[0][1] != T("text", Sym("span0")):
+                    bad.append("with describe = true and %d earlier description(s) a hit appends %s; specified exactly one Description::Constant(the looked-up text, the matched constant)%s" % (
+                        len(prior), list(new_items), "" if not dom.pc(o.store) else " (path: %s)" % "; ".join("%r=%s" % (p_, b_) for p_, b_ in dom.pc(o.store))[:300]))
+            elif new_items:
+                bad.append("describe = %s, %s: the description list gains %s" % (d, "hit" if hit else "miss / error", list(new_items)))
+        # the same results on both sides
+        rt = sorted(r for r, _ in by[True])
+        rf = sorted(r for r, _ in by[False])
+        both = sorted(r for r, _ in by[None])
+        if rt != rf:
+            bad.append("results with describe = true %s differ from those with describe = false %s" % (rt[:2], rf[:2]))
+        hits_t = [r for r in rt if r[0] == "ok"]
+        rep.ob("C18-R2", "summary:%s" % label, not bad and len(hits_t) >= 1 and len(rf) >= 1, "; ".join(sorted(set(bad))[:3]) if bad else
+               "%s: describe does not change any of the %d result paths; one description (looked-up text, matched constant) appended on a hit, none otherwise" % (label, len(rt) + len(both)),
+               facts.fn("eval::eval").site(), sample={"node": kind, "paths_true": len(rt), "paths_false": len(rf)})
 
 
 def r3_writers(facts, rep):
-    rep.rule("C18-R3", "who-writes: the only call that receives q.descriptions mutably is the Vec::push in eval::eval; "
-                       "the field is assigned only when the Query is constructed")
+    rep.rule("C18-R3", "who-writes: q.descriptions is passed mutably only to Vec::push inside the evaluator (module eval); the field "
+                       "is assigned only when the Query is constructed")
     n = 0
     for b in facts.lib_bodies():
         if b.from_derive():
@@ -154,8 +116,8 @@ def r3_writers(facts, rep):
                 if a["k"] in ("copy", "move") and ("descriptions",) in flow.field_origins(b, a) \
                         and flow.is_mut_borrow(b, a):
                     n += 1
-                    okk = b.path == "eval::eval" and name == "std::vec::Vec::<T, A>::push"
-                    rep.ob("C18-R3", "use:%s:%s" % (b.path, name.split("::")[-1]), okk,
+                    okk = b.path.startswith("eval::") and not b.path.startswith("eval::builtin") and name == "std::vec::Vec::<T, A>::push"
+                    rep.ob("C18-R3", "use:%s:%s" % ("eval" if b.path.startswith("eval::") else b.path, name.split("::")[-1]), okk,
                            "q.descriptions is passed to %s in %s" % (name, b.path), b.site(sp))
         for blk, i, s in b.stmts():
             if F.place_fields(s["place"])[-1:] == ["descriptions"]:
